@@ -136,6 +136,11 @@ func TestSim(t *testing.T) {
 			res.PrevSeeds = append([]uint64(nil), ran...)
 		}
 		ran = append(ran, gs)
+		// (also on disk: if this process dies, the driver needs to know what it had run before)
+		if f, err := os.OpenFile(out+".ran", os.O_APPEND|os.O_CREATE|os.O_WRONLY, 0o644); err == nil {
+			fmt.Fprintf(f, "%d\n", gs)
+			f.Close()
+		}
 		agg.Runs++
 		if os.Getenv("VSIM_HASHES") != "" {
 			agg.Hashes = append(agg.Hashes, fmt.Sprintf("%d:%s:%d:%d", gs, res.Hash, res.Steps, len(res.Violations)))
